@@ -47,6 +47,7 @@ Specification vocabulary (Model/C12Spec.lean), compared by the harness with Pyth
   {"op":"spec_hist","h":hist,"ranges":ranges|null}
       -> {"wf":bool,"valid":bool,"nonempty_axes":bool,"index_prod":[[n..]..],"cells":[{"idx","in_range","edges","row"}..],
           "valid_ranges":bool|null,"selected":[[n..]..]|null}
+  {"op":"spec_coord","edges":edges,"values":[[q..]..]}  -> {"increasing":[bool..],"not_above":[[n..]..]}   (per axis)
   {"op":"spec_map","bins":nested,"c":q}                 -> {"map":nested,"values":[q..],"sum":q}
   {"op":"spec_zip","a":nested,"b":nested,"w":q}         -> {"zip":nested,"get":[[idx,q|null]..]}      (x + y*w; get? per cell of a)
   {"op":"spec_points","h":hist,"mode":str,"mv":..}      -> {"points":[[q..]..]}
@@ -436,6 +437,14 @@ def handle (j : Json) : Json :=
                   ("index_prod", ofList (ofList ofNat) (NArr.indexProd (h.nbins.map List.range))),
                   ("cells", ofList cellJ cs), ("valid_ranges", vr), ("selected", sel)]
     | _, _ => err "bad spec_hist args"
+  | some "spec_coord" =>
+    match parseEdges (getD j "edges"), ratLists? (getD j "values") with
+    | some e, some vals =>
+      let axes := e.axes
+      Json.mkObj [("increasing", ofList (fun ax => Json.bool (increasingPairs ax)) axes),
+                  ("not_above", ofList (fun (p : List Rat × List Rat) => ofList (fun v => ofNat (edgesNotAbove p.1 v)) p.2)
+                    (List.zip axes vals))]
+    | _, _ => err "bad spec_coord args"
   | some "spec_map" =>
     match parseNArr (getD j "bins"), rat? (getD j "c") with
     | some b, some c =>
